@@ -132,6 +132,8 @@ Definition expected : table :=
         If (CFlag "DryRun")
           [ ReturnOk ] [];
         Fn "Storage.History" "";
+        If (CAnd CErr CData)
+          [ ReturnErr ] [];
         If (COr CErr CData)
           [ ReturnOk ] [];
         If (CAnd (CFlag "Replace") CData)
@@ -142,6 +144,8 @@ Definition expected : table :=
         Return ]);
     ("Install.replaceRelease",
       [ Fn "Storage.History" "";
+        If (CAnd CErr CData)
+          [ ReturnErr ] [];
         If (COr CErr CData)
           [ ReturnOk ] [];
         If CData
